@@ -1,8 +1,14 @@
 import Pko.Util
 import Pko.Model.Cache
 import Pko.Model.CacheSpec
+import Pko.Model.InformerMap
 /-! Line driver for C12: `model` prints what the model of `Cache` does (same format as the Go
-harness); `monitor` checks an implementation output line against the abstract spec. -/
+harness); `monitor` checks an implementation output line against the abstract spec.
+
+Streams (field `t` of the scenario): absent/`seq` = real Cache over a scripted informer-map fake,
+model `Pko.Model.Cache`; `im` = real Cache over the real InformerMap over a counting API fake, model
+`Pko.Model.InformerMap`; `conc`/`ilv` = concurrency exploration, whose harness prints a summary
+(`ok` or what went wrong) and whose model is the constant `ok`. -/
 namespace Pko.Drv.C12
 open Lean Pko.Model.Cache
 
@@ -14,8 +20,11 @@ structure JOp where
   deriving FromJson
 
 structure Scn where
-  ops : List JOp
+  t : Option String := none
+  ops : Option (List JOp) := none
   deriving FromJson
+
+def Scn.opList (sc : Scn) : List JOp := sc.ops.getD []
 
 def nKinds : Nat := 3
 
@@ -72,10 +81,10 @@ def callLog (s : State) : Op → List String
       | none, _ => [s!"GK{k}+"]
   | .owners _ => []
 
-def model (sc : Scn) : String := Id.run do
+def modelSeq (sc : Scn) : String := Id.run do
   let mut s := init
   let mut outs : Array String := #[]
-  for j in sc.ops do
+  for j in sc.opList do
     match toOp j with
     | none => return "BAD-OP"
     | some op =>
@@ -94,12 +103,12 @@ def specStateStr (s : Spec) : String :=
 
 /-- Monitor: replay the abstract spec and compare result + observable state of every step
 (the call log in the middle field is not part of the property). -/
-def monitor (sc : Scn) (out : String) : String := Id.run do
+def monitorSeq (sc : Scn) (out : String) : String := Id.run do
   let steps := if out.isEmpty then [] else out.splitOn ";"
-  if steps.length != sc.ops.length then return s!"bad step-count impl={steps.length} scn={sc.ops.length} out={out.take 80}"
+  if steps.length != sc.opList.length then return s!"bad step-count impl={steps.length} scn={sc.opList.length} out={out.take 80}"
   let mut s := Pko.Model.CacheSpec.init
   let mut i := 0
-  for (j, st) in sc.ops.zip steps do
+  for (j, st) in sc.opList.zip steps do
     match toOp j with
     | none => return "bad BAD-OP"
     | some op =>
@@ -113,6 +122,115 @@ def monitor (sc : Scn) (out : String) : String := Id.run do
         return s!"bad step={i} op={j.op} want={want.1}/{want.2} got={got.1}/{got.2}"
       i := i + 1
   return "ok"
+
+/-! ### stream `im`: real Cache over real InformerMap -/
+
+def nKindsIM : Nat := 2
+
+def toFailIM : String → Fail
+  | "nomap" => .get | "slow" => .sync | _ => .ok
+
+def toOpIM (j : JOp) : Option Op :=
+  if j.k ≥ nKindsIM then none else
+  match j.op with
+  | "watch" => some (.watch j.o j.k (toFailIM j.f))
+  | "free" => some (.free j.o)
+  | "get" => some (.get j.k .ok)
+  | "list" => some (.get j.k .ok)
+  | "owners" => some (.owners j.k)
+  | _ => none
+
+open Pko.Model in
+/-- per kind: LIST calls . WATCH streams opened . still open . map entry . create events [owners] -/
+def imKindStr (s : InformerMap.State) (k : Nat) : String :=
+  let m := if (s.im.map k).isSome then 1 else 0
+  s!"{InformerMap.startedCount s k}.{InformerMap.syncedCount s k}.{(InformerMap.runningIds s k).length}.{m}.{InformerMap.handlerCount s k}[{ownersStr (InformerMap.owners s k)}]"
+
+open Pko.Model in
+def modelIM (sc : Scn) : String := Id.run do
+  let mut s := InformerMap.init
+  let mut outs : Array String := #[]
+  for j in sc.opList do
+    match toOpIM j with
+    | none => return "BAD-OP"
+    | some op =>
+      let (s', r) := InformerMap.step s op
+      s := s'
+      outs := outs.push s!"{resStr r} {"|".intercalate ((List.range nKindsIM).map (imKindStr s))}"
+  return ";".intercalate outs.toList
+
+/-- parse `l.w.o.m.e[owners]` -/
+def parseKindIM (t : String) : Option (List Nat × String) :=
+  match t.splitOn "[" with
+  | [nums, os] =>
+    let ns := (nums.splitOn ".").filterMap String.toNat?
+    if ns.length = 5 ∧ os.endsWith "]" then some (ns, (os.dropEnd 1).toString) else none
+  | _ => none
+
+/-- Monitor of the `im` stream.  Replays the who-watches-what spec and checks on the implementation's
+observation after every op: result and owner sets as specified; a kind has exactly one open WATCH
+stream if it has an owner and none otherwise (open > 0 ⇔ owned, ≤ 1); the informer map has an entry
+exactly for owned kinds; WATCH streams ever opened and create events seen by the controller handler
+both equal the number of successful informer starts the spec demands (so every started informer
+delivered to the handlers, and nothing else ever opened a stream); quiescence was reached. -/
+def monitorIM (sc : Scn) (out : String) : String := Id.run do
+  let steps := if out.isEmpty then [] else out.splitOn ";"
+  if steps.length != sc.opList.length then return s!"bad step-count impl={steps.length} scn={sc.opList.length} out={out.take 80}"
+  let mut s := Pko.Model.CacheSpec.init
+  let mut starts : List Nat := List.replicate nKindsIM 0
+  let mut i := 0
+  for (j, st) in sc.opList.zip steps do
+    match toOpIM j with
+    | none => return "bad BAD-OP"
+    | some op =>
+      let (s', r) := Pko.Model.CacheSpec.step s op
+      match op with
+      | .watch _ k _ =>
+        if (s.w k).isEmpty && r == .ok then starts := starts.set k (starts.getD k 0 + 1)
+      | _ => pure ()
+      s := s'
+      let toks := st.splitOn " "
+      let (res, obs, timeout) := match toks with
+        | [a, b] => (a, b, false)
+        | [a, b, "TIMEOUT"] => (a, b, true)
+        | _ => ("?", "", false)
+      let kinds := obs.splitOn "|"
+      if kinds.length != nKindsIM then return s!"bad format step={i} got={st.take 80}"
+      for (k, kt) in (List.range nKindsIM).zip kinds do
+        match parseKindIM kt with
+        | some ([_, w, o, m, e], os) =>
+          let owned := !(s.w k).isEmpty
+          let want := if owned then 1 else 0
+          if o != want then return s!"bad open-streams step={i} op={j.op} kind={k} open={o} owners=[{ownersStr (s.w k)}]"
+          if m != want then return s!"bad map-entry step={i} op={j.op} kind={k} entry={m} owners=[{ownersStr (s.w k)}]"
+          if os != ownersStr (s.w k) then return s!"bad owners step={i} op={j.op} kind={k} want=[{ownersStr (s.w k)}] got=[{os}]"
+          if w != starts.getD k 0 then return s!"bad streams-opened step={i} op={j.op} kind={k} opened={w} starts={starts.getD k 0}"
+          if e != starts.getD k 0 then return s!"bad handler-events step={i} op={j.op} kind={k} events={e} starts={starts.getD k 0}"
+        | _ => return s!"bad format step={i} kind={k} got={kt.take 40}"
+      if res != resStr r then return s!"bad result step={i} op={j.op} want={resStr r} got={res}"
+      if timeout then return s!"bad no-quiescence step={i} op={j.op}"
+      i := i + 1
+  return "ok"
+
+/-! ### dispatch -/
+
+def stripBad (out : String) : String :=
+  ((if out.startsWith "bad " then (out.drop 4).toString else out).take 200).toString
+
+def model (sc : Scn) : String :=
+  match sc.t with
+  | none | some "seq" => modelSeq sc
+  | some "im" => modelIM sc
+  | some "conc" | some "ilv" => "ok"
+  | some t => s!"BAD-STREAM {t}"
+
+def monitor (sc : Scn) (out : String) : String :=
+  match sc.t with
+  | none | some "seq" => monitorSeq sc out
+  | some "im" => monitorIM sc out
+  | some "conc" => if out == "ok" then "ok" else s!"bad concurrent: {stripBad out}"
+  | some "ilv" => if out == "ok" then "ok" else s!"bad interleaving: {stripBad out}"
+  | some t => s!"bad BAD-STREAM {t}"
 
 end Pko.Drv.C12
 
